@@ -204,6 +204,12 @@ func (p *c03) build(i int) (*Program, *c03gen) {
 		body = g.body(1+g.r.Intn(4), "")
 		body = append(g.pre, body...)
 	}
+	// the last byte of a template may be a lone '{' (nothing can merge with it there)
+	if g.r.Intn(4) == 0 {
+		tails := []string{"{", "end{", " {", "%{", "}{", "é{", "\n{", "{ {"}
+		body = append(body, &gen.NText{S: tails[g.r.Intn(len(tails))], ID: "tail"})
+		g.sig = append(g.sig, "tail-brace")
+	}
 	// merge adjacent text nodes: the parser sees one text run
 	var merged []gen.Node
 	for _, n := range body {
@@ -256,7 +262,7 @@ func (p *c03) Run(i int) (res fw.Result) {
 }
 
 func (p *c03) Rule() string {
-	return "cases: seeded structure trees whose leaves are mostly literal chunks (ASCII, 2/3/4-byte UTF-8, LF/CRLF/TAB, lone { } % #, closing delimiters }} %} #} -}} , quotes, U+2028, DEL; never forming an opening delimiter) interleaved with prints of literals, comments (multi-line, containing {{ / {% / #), verbatim bodies (containing prints, tags, comments, unclosed quotes, lone delimiters, a nested verbatim opener) and nested inside if/elseif/else, for/else, block, set-capture (printed afterwards), filter sections (bracket filters) and macro bodies to depth 4; every 10th case is a delimiter-free text that must render to itself; odd cases are spelled without blanks inside delimiters ({%if x%}), even cases canonically. Oracle: byte-exact equality with the reference model's output. Non-trivial = >=2 chunks inside nested bodies (or a delimiter-free text); distinct = construct path and alphabet class of every chunk."
+	return "cases: seeded structure trees whose leaves are mostly literal chunks (ASCII, 2/3/4-byte UTF-8, LF/CRLF/TAB, lone { } % #, closing delimiters }} %} #} -}} , quotes, U+2028, DEL; never forming an opening delimiter; a lone { also as the very last byte of the template) interleaved with prints of literals, comments (multi-line, containing {{ / {% / #), verbatim bodies (containing prints, tags, comments, unclosed quotes, lone delimiters, a nested verbatim opener) and nested inside if/elseif/else, for/else, block, set-capture (printed afterwards), filter sections (bracket filters) and macro bodies to depth 4; every 10th case is a delimiter-free text that must render to itself; odd cases are spelled without blanks inside delimiters ({%if x%}), even cases canonically. Oracle: byte-exact equality with the reference model's output. Non-trivial = >=2 chunks inside nested bodies (or a delimiter-free text); distinct = construct path and alphabet class of every chunk."
 }
 
 func (p *c03) Assumptions() []string {
